@@ -36,7 +36,7 @@ from asyncio import (
 from itertools import islice
 from threading import Lock
 from functools import partial, wraps
-from concurrent.futures import ThreadPoolExecutor
+from concurrent.futures import ThreadPoolExecutor, Future as ConcurrentFuture
 from weakref import WeakKeyDictionary as WeakKeyDict, finalize
 from time import sleep
 from typing import (
@@ -1232,6 +1232,9 @@ class AsyncBackgroundBatcher(Generic[A_contra, R_co]):
 
 
 _CROSS_LOOP_POOL = ThreadPoolExecutor(32)
+#: ids of the loops currently being run by a helper thread of ensure_aw
+_BORROWED_LOOPS: Set[int] = set()
+_BORROWED_LOOPS_LOCK = Lock()
 
 
 async def ensure_aw(aw: Awaitable[T], loop: Loop) -> T:
@@ -1282,8 +1285,20 @@ async def ensure_aw(aw: Awaitable[T], loop: Loop) -> T:
     if main_loop is loop:
         return await aw
 
-    if loop.is_running():
+    with _BORROWED_LOOPS_LOCK:  # No helper can finish in between
+        running = loop.is_running()
+        borrowed = id(loop) in _BORROWED_LOOPS
+
+    if running and not borrowed:
         return await run_aw_threadsafe(aw, loop)
+
+    if running:
+        # The loop is only running because the helper thread of another
+        # caller borrowed it and will stop as soon as that caller is
+        # done. Start on it right away, but also queue up behind that
+        # helper below to keep the loop going until this one is done.
+        coro = aw if aio.iscoroutine(aw) else _aw_to_coro(aw)
+        aw = _wrapped_future_to_coro(run_coro_ts(coro, loop))
 
     if loop.is_closed():
         raise RuntimeError("Target loop is closed!")
@@ -1291,7 +1306,12 @@ async def ensure_aw(aw: Awaitable[T], loop: Loop) -> T:
     def _loop_thread() -> T:
         with _get_loop_lock(loop):
             aio.set_event_loop(loop)
-            return loop.run_until_complete(aw)
+            _BORROWED_LOOPS.add(id(loop))
+            try:
+                return loop.run_until_complete(aw)
+            finally:
+                with _BORROWED_LOOPS_LOCK:
+                    _BORROWED_LOOPS.discard(id(loop))
 
     return await main_loop.run_in_executor(_CROSS_LOOP_POOL, _loop_thread)
 
@@ -1395,6 +1415,11 @@ def _cancelling(unknown: bool) -> bool:
 async def _aw_to_coro(aw: Awaitable[T]) -> T:
     """Wrap a given awaitable so it appears as a coroutine."""
     return await aw
+
+
+async def _wrapped_future_to_coro(fut: 'ConcurrentFuture[T]') -> T:
+    """Wait for a concurrent future in the running loop."""
+    return await aio.wrap_future(fut)
 
 
 async def _obj_to_aiter(o: T) -> AsyncIterable[T]:
